@@ -165,7 +165,12 @@ func (p c17) Gen(c *run.Ctx, idx int) (json.RawMessage, error) {
 			default:
 				script = append(script, fake.SubEvent{Kind: "complete"})
 			}
-			subs = append(subs, subSpec{ID: fmt.Sprintf("s%d", si), Op: *op, Marker: marker, Script: script})
+			id := fmt.Sprintf("s%d", si)
+			if r.Intn(4) == 0 {
+				// ids are client-chosen strings: control characters, quotes, non-BMP and non-printable runes
+				id = pick(r, []string{"unit\x1fsep\x7f", "q\"uote\\back", "emoji\U0001F600", "sp ace\ttab\nnl", "tag\U000e0001", "\u200d\u00a0", "0"}) + fmt.Sprint(si)
+			}
+			subs = append(subs, subSpec{ID: id, Op: *op, Marker: marker, Script: script})
 		}
 		// sometimes the subscriptions of one connection share one operation text and differ only in the
 		// marker *variable* (same plan-cache key on a caching gateway)
